@@ -506,6 +506,39 @@ def run_case(case):
     counters["distinct_states"] = len(states)
     counters["distinct_transitions"] = len(trans)
     os.chdir(_home[0])
+    if case["idx"] % 4 == 1:
+        # an interleaving in time rather than in sequence: four Python threads issue solves of the pool concurrently (a thread pool
+        # over towers); every one of them must come back as the fresh-process table has it
+        import threading
+
+        rc.NUM_THREADS = int(rng.choice([1, 1, 2, 3]))
+        cand = [x for x in pool if x + "!raised" not in _table and x not in ("r29", "r30", "r31", "r32")]
+        plans = [[str(x) for x in rng.choice(cand, size=6)] for _ in range(4)]
+        got_, errs_ = [], []
+
+        def _thr(plan_):
+            for nm_ in plan_:
+                try:
+                    c_, f_ = do_solve(R[nm_])
+                    got_.append((nm_, np.array(c_, copy=True), np.array(f_, copy=True)))
+                except Exception as e_:  # noqa
+                    errs_.append((nm_, repr(e_)[:200]))
+
+        ths_ = [threading.Thread(target=_thr, args=(pl_,)) for pl_ in plans]
+        [t_.start() for t_ in ths_]
+        [t_.join() for t_ in ths_]
+        counters["solves_issued_concurrently_from_python_threads"] = len(got_) + len(errs_)
+        for nm_, e_ in errs_:
+            viol.append({"what": "solve_raises_when_issued_concurrently", "request": nm_, "exc": e_, "threads": rc.NUM_THREADS})
+        for nm_, c_, f_ in got_:
+            ct_, ft_ = _table[nm_]
+            tol_ = 1e-12 if R[nm_]["precision"] == "double" else 1e-6
+            e_ = float("inf") if c_.shape != ct_.shape else max(np.max(np.abs(c_ - ct_)) / (np.max(np.abs(ct_)) or 1), np.max(np.abs(f_ - ft_)) / (np.max(np.abs(ft_)) or 1))
+            resid["concurrent_vs_fresh"] = max(resid.get("concurrent_vs_fresh", 0.0), float(e_) if np.isfinite(e_) else 1e300)
+            if not e_ <= tol_:
+                viol.append({"what": "result_depends_on_solves_running_at_the_same_time", "request": nm_, "rel": float(e_), "numerical_threads": rc.NUM_THREADS,
+                             "concurrent_plans": plans})
+        rc.NUM_THREADS = 1
     return {"evals": counters["solves"], "nontrivial": bool(sigs), "sig": sorted(sigs), "buckets": b, "resid": resid, "counters": counters,
             "violations": viol, "sample": {"history": hist, "states_seen": [list(map(str, s)) for s in sorted(states, key=str)][:6]}}
 
